@@ -76,7 +76,7 @@ def run(rec, F):
             nd = done or b in hit_edges or b in setb or b in clrb
             nsig = sig
             t = fn.blocks[b]["t"]
-            if t["k"] == "call" and lastseg(t["f"]).startswith(("runtime_error", "internal_error", "set_error")):
+            if t["k"] == "call" and (lastseg(t["f"]).startswith(("runtime_error", "internal_error", "set_error")) or sem.is_error_call(F, t)):
                 nsig = "ERR"
             if t["k"] == "return":
                 if not nd and nsig != "ERR":
@@ -132,7 +132,7 @@ def run(rec, F):
                             c = sem.const_int(t["args"][1])
                             extra = "(%s)" % (c if c is not None else "n")
                         nseq = seq + (n + extra,)
-                    if n.startswith(("runtime_error", "internal_error")):
+                    if n.startswith(("runtime_error", "internal_error")) or sem.is_error_call(F, t):
                         continue  # error path
                 if t["k"] == "return":
                     if nset or not need_set:
@@ -160,6 +160,8 @@ def run(rec, F):
                     ds = str(d)
                     if (sem.desc_call_name(d) == "eq" or (d[0] == "bin" and d[1] == "Eq")) and "class" in ds and ("('arg', 3)" in ds) and outc is True:
                         ok = True
+        if not ok:
+            ok = _option_chain_filters_on_class(F, g)
         rec.inst(R, "%s: Some only when cache.class == probe" % nm, ok=ok, loc=g.loc)
         if not ok:
             rec.finding(R, "F4.cache/%s/compare" % nm, "InlineCache::%s returns its payload without a dominating `cache.class == class` test" % nm, loc=g.loc, fn=g.path)
@@ -211,3 +213,65 @@ def fill_depends_on_key_only(rec, F):
                         what = sem.desc_call_name(d[1]) if d[0] == "discr" else sem.desc_call_name(d)
                         rec.finding(R, "F4.cache-det/%s/%s" % (fn.name, what or d[0]), "%s decides between the cache miss and the cache fill on `%s`, which depends on this receiver's own state rather than on its class: what gets cached for the class depends on which instance came first (e.g. a nil field lets the method be cached, after which an instance whose field holds a closure is dispatched to the method too)" % (fn.name, what or str(d)[:60]), loc=loc_of(t["sp"]), fn=fn.path)
     rec.floor(R, "branches between cache miss and fill", n, 8)
+
+
+def _closure_tests_class(F, g, t, c):
+    """closure c (passed to Option::filter at call t of g) returns `entry.class == <captured probe>`
+    where the capture is g's class parameter (argument 3)."""
+    eqs = [(bi, tt) for bi, tt in c.calls() if lastseg(tt.get("decl") or tt["f"]) == "eq" and len(tt["args"]) == 2]
+    if len(eqs) != 1:
+        return False
+    bi, tt = eqs[0]
+    # result is the closure's return value
+    dl = tt["dest"]["l"]
+    ret_ok = dl == 0 or any(s["d"]["l"] == 0 and not s["d"]["p"] and s["r"]["k"] == "use" and op_local(s["r"]["a"]) == dl for _, _, s in c.stmts())
+    if not ret_ok or any(s["r"]["k"] == "un" and s["r"]["op"] == "Not" for _, _, s in c.stmts()):
+        return False
+    has_class = cap = None
+    for a in tt["args"]:
+        r = c.root_of(a)
+        if r[0] == "place":
+            pl = r[1]
+            if any(e[0] == "field" and e[2] == "class" for e in pl["p"]):
+                has_class = True
+            elif pl["l"] == 1 and pl["p"] and pl["p"][0][0] == "field":
+                cap = pl["p"][0][1]
+    if not has_class or cap is None:
+        return False
+    # which operand of g fills that capture
+    for a in t["args"]:
+        r = g.root_of(a)
+        if r[0] == "rvalue" and r[1]["k"] == "agg" and r[1]["adt"] == "closure:" + c.path and cap < len(r[1]["ops"]):
+            return g.root_of(r[1]["ops"][cap]) == ("arg", 3)
+    return False
+
+
+def _option_chain_filters_on_class(F, g):
+    """the lookup written as an Option chain: the returned value is slot.as_ref().filter(|e| e.class == class).map(..):
+    a filter on class equality, and after it only payload projections (no combinator that can re-create Some)."""
+    rets = [s for _, _, s in g.stmts() if s["d"]["l"] == 0 and not s["d"]["p"]]
+    if rets:
+        return False  # _0 assigned by statements: the guard form, decided by the caller
+    cur = None
+    for bi, t in g.calls():
+        if t["dest"]["l"] == 0 and not t["dest"]["p"]:
+            if cur is not None:
+                return False
+            cur = t
+    filtered = False
+    steps = 0
+    while cur is not None and steps < 12:
+        steps += 1
+        n = lastseg(cur.get("decl") or cur["f"])
+        if "core::option::Option" not in cur["f"]:
+            break
+        if n == "filter":
+            cl = [F.fn(p) for p in sem.closure_args_of_call(g, cur)]
+            if len(cl) != 1 or cl[0] is None or not _closure_tests_class(F, g, cur, cl[0]):
+                return False
+            filtered = True
+        elif n not in ("map", "as_ref", "copied", "cloned", "as_deref"):
+            return False  # or / or_else / xor / and / unwrap_or ...: could answer for another class
+        r = g.root_of(cur["args"][0]) if cur["args"] else ("unknown",)
+        cur = r[1] if r[0] == "call" else None
+    return filtered
